@@ -26,8 +26,8 @@ CLAIMS = {
           "Coq proof of the termination mechanism + watchdog differential runs", "3/C04", True),
  "C05": C("Coq theorem (any number type, any interpolant): the t_eval scan of an accepted step consumes exactly the pending requested times not beyond the step end and reports, in order, bit for bit and with the interpolant's value, those not before the step start." + TIE + " Grid-aware placements (inside, on a boundary, +-1 ulp, +-1e-12, +-1e-9).",
           "Coq proof of the sampling loop + bit-exact correspondence", "3/C05", True),
- "C06": C("Tie only in this revision: every sol(t) value, span and error is replayed bit for bit on the model and the property's clauses (sol(t_i)=y_i, no jumps, out-of-range, NotEnabled, zero-length run) are checked on the implementation; endpoint identities are not yet theorems.",
-          "bit-exact model/implementation correspondence + dense-output oracles (no theorem yet: partial)", "3/C06", True),
+ "C06": C("Coq theorems over the reals, every dimension n, every h<>0 of either sign, every value of the stage derivatives: the DOPRI5, DOP853, RK4 and RK23 interpolants equal the old state at the left end and the new state at the right end of the step (RK23 via the exact rationals of the source constants), the Radau collocation polynomial ends at the new state; on a contiguous chain of segments sol(t) is evaluated for every t between the first and last covered time by a segment containing t, is OutOfRange outside and NotEnabled without dense output; the handler stores exactly the step's interpolant. Not proved: Radau left end (rounded decimal constants) and the BDF difference polynomial -- replay + oracle only." + TIE,
+          "Coq proof (interpolant endpoint identities, no-gap lookup) + bit-exact correspondence + dense-output oracles", "3/C06", True),
  "C07": C("Tie only in this revision: dense coefficients are part of the bit-exact replay; the interpolant's order is measured by one-step slope fits from exact data (explicitly time-dependent problems); continuous order conditions are not yet theorems.",
           "bit-exact correspondence + one-step slope experiment (no theorem yet: partial)", "3/C07", True),
  "C08": C("Coq theorems: a reported event is a step endpoint with its stored state or (t_e, interpolant(t_e)); events of a step are a stable sort (permutation, ordered) of the detected ones; direction filter truth table (real semantics). Brent's bracket invariant is not yet a theorem." + TIE,
